@@ -14,8 +14,13 @@
 EXTENDS MC_C13, Json
 CONSTANT Big
 
-SnJ(v)  == [sst |-> v.sst, sd |-> SdText(v.sd)]
-TaiJ(t) == [mcc |-> MccText(t.plmn), mnc |-> MncText(t.plmn), tac |-> HexText(t.tac)]
+\* hexadecimal text is legal in either case of the letters (TS 29.571: ^[A-Fa-f0-9]{6}$): a third of the texts in lower case,
+\* a third in upper case, a third alternating - chosen by the value, so that every generated list mixes them
+UpCp(c) == IF c \in 97..102 THEN c - 32 ELSE c
+CaseText(txt, k) == [i \in 1..Len(txt) |-> IF k = 1 \/ (k = 2 /\ i % 2 = 1) THEN UpCp(txt[i]) ELSE txt[i]]
+HexTextC(os) == IF Len(os) = 0 THEN <<>> ELSE CaseText(HexText(os), (os[Len(os)] + os[1]) % 3)
+SnJ(v)  == [sst |-> v.sst, sd |-> HexTextC(v.sd)]
+TaiJ(t) == [mcc |-> MccText(t.plmn), mnc |-> MncText(t.plmn), tac |-> HexTextC(t.tac)]
 SeqJ(F(_), s) == [i \in 1..Len(s) |-> F(s[i])]
 SdG == SdB \o << <<10, 27, 44>>, <<128, 0, 127>> >>
 Causes == IF Big THEN <<0, 1, 2, 15>> ELSE <<0, 1>>
@@ -26,7 +31,7 @@ BadLens == {0, 3, 6, 7, 9, 10, 255}
 AreaOf(i, n, a, pat) == IF pat = 1 THEN ((i - 1) % a) + 1 ELSE (IF i <= n - a + 1 THEN 1 ELSE i - (n - a))
 RECURSIVE SelectIdx(_, _, _, _, _)
 SelectIdx(i, n, a, pat, j) == IF i > n THEN <<>> ELSE (IF AreaOf(i, n, a, pat) = j THEN <<i>> ELSE <<>>) \o SelectIdx(i + 1, n, a, pat, j)
-Areas(ts, a, pat) == [j \in 1..a |-> LET ix == SelectIdx(1, Len(ts), a, pat, j) IN [m \in 1..Len(ix) |-> HexText(ts[ix[m]].tac)]]
+Areas(ts, a, pat) == [j \in 1..a |-> LET ix == SelectIdx(1, Len(ts), a, pat, j) IN [m \in 1..Len(ix) |-> HexTextC(ts[ix[m]].tac)]]
 
 GInit == fam = "root" /\ x = <<>>
 GFams == {"snssai", "snssaiwire", "nssai", "badnssai", "rej", "tai", "sal", "ladn", "ladnind"}
